@@ -410,9 +410,10 @@ func descOf(b base, cs []corr) string {
 // ---- shared per-execution bookkeeping ----
 
 type runner struct {
-	r        *mc.Run
-	hungMu   sync.Mutex
-	hungSize map[string]bool // size texts for which a deb.Load already hung (set by load-size-single)
+	conv0Only bool // set around scenarios whose inputs differ only in inner content: the ReaderAt convention is not varied
+	r         *mc.Run
+	hungMu    sync.Mutex
+	hungSize  map[string]bool // size texts for which a deb.Load already hung (set by load-size-single)
 }
 
 const maxHangs = 8
@@ -460,6 +461,9 @@ func (x *runner) oneRep(scen string, st *mc.Stats, lim limiter, b []byte, via, d
 	anomaly, _ := refWalk(b)
 	var clauses0 map[string]bool
 	nconv := 2
+	if x.conv0Only {
+		nconv = 1
+	}
 	if isFileVia(via) {
 		nconv = 1 // a file on disk: os.File is the reader, there is no convention to vary
 	}
@@ -757,6 +761,41 @@ func Run(r *mc.Run) {
 			return true
 		})
 
+	// ---- well-formed packages longer than any window a reader might keep: 60 / 200 extra small members before,
+	// after, and around the three real ones ----
+	type mm struct {
+		desc string
+		ms   []gen.ArmMember
+	}
+	var many []mm
+	for _, b := range []base{debB[0], debB[1]} {
+		for _, n := range []int{60, 200} {
+			extra := func(tag string) []gen.ArmMember {
+				var e []gen.ArmMember
+				for i := 0; i < n; i++ {
+					e = append(e, mem(fmt.Sprintf("_%s%d", tag, i), []byte("0123456789")[:i%9]))
+				}
+				return e
+			}
+			many = append(many,
+				mm{fmt.Sprintf("%s + %d small members after", b.name, n), append(append([]gen.ArmMember{}, b.ms...), extra("a")...)},
+				mm{fmt.Sprintf("%s + %d small members between debian-binary and control", b.name, n), append(append(append([]gen.ArmMember{}, b.ms[0]), extra("b")...), b.ms[1:]...)},
+				mm{fmt.Sprintf("%s + %d small members before", b.name, n), append(extra("c"), b.ms...)},
+				mm{fmt.Sprintf("%s + %d small members before and after", b.name, n), append(append(extra("d"), b.ms...), extra("e")...)})
+		}
+	}
+	poolScratchDirs()
+	r.Scenario("deb-many-members", map[string]interface{}{"inputs": len(many), "extra_members": []int{60, 200}, "placements": "after | between debian-binary and control | before | before and after",
+		"via": "ar level + deb.Load + deb.LoadFile (closer,deb)"},
+		len(many), func(i int, st *mc.Stats) bool {
+			lim := limiter{}
+			bs := gen.ArmBuild(many[i].ms)
+			st.Transitions++
+			x.one("deb-many-members", st, lim, bs, "ar", many[i].desc)
+			return x.one("deb-many-members", st, lim, bs, "load", many[i].desc) && x.one("deb-many-members", st, lim, bs, fileVia("closer,deb"), many[i].desc)
+		})
+	removeScratchDirs()
+
 	// ---- short strings ----
 	strs := gen.AllStrings(append([]string{"!", "`", "\n", "0", " "}, gen.AuditChars(oneByte, 2)...), 3)
 	places := []string{"alone", "after magic", "before members", "after last member", "after member 0"}
@@ -905,6 +944,7 @@ func Run(r *mc.Run) {
 	// ---- valid containers around near-miss content (content.go) ----
 	poolScratchDirs()
 	x.controlContentScenario(r)
+	x.controlTailsScenario(r)
 	x.streamScenario(r)
 	x.tarHeaderScenario(r)
 	removeScratchDirs()
